@@ -181,25 +181,33 @@ int main(int argc, char **argv)
   int ninst     = atoi(argv[4]);
   long shard    = argc > 6 ? atol(argv[5]) : 0;
   long nshards  = argc > 6 ? atol(argv[6]) : 1;
-  std::vector<json> behs;
+  // the parent keeps only the offsets of its behaviours (a small process forks cheaply); the child
+  // reads and parses each behaviour when it gets there
+  std::vector<std::pair<long, long>> lines;
   {
-    std::ifstream in(argv[2]);
+    std::ifstream in(argv[2], std::ios::binary);
     if (!in)
     {
       fprintf(stderr, "cannot open %s\n", argv[2]);
       return 2;
     }
     std::string line;
-    long idx = 0;
+    long idx = 0, off = 0;
     while (std::getline(in, line))
     {
-      if (line.empty())
-        continue;
-      if (idx++ % nshards != shard)
-        continue;
-      behs.push_back(json::parse(line));
+      long len = static_cast<long>(line.size());
+      if (!line.empty() && idx++ % nshards == shard)
+        lines.emplace_back(off, len);
+      off += len + 1;
     }
   }
+  auto load = [&](long j) -> json {
+    std::ifstream in(argv[2], std::ios::binary);
+    in.seekg(lines[static_cast<size_t>(j)].first);
+    std::string line(static_cast<size_t>(lines[static_cast<size_t>(j)].second), '\0');
+    in.read(&line[0], static_cast<std::streamsize>(line.size()));
+    return json::parse(line);
+  };
   g_shm = static_cast<Shm *>(mmap(nullptr, sizeof(Shm), PROT_READ | PROT_WRITE, MAP_SHARED | MAP_ANONYMOUS, -1, 0));
   if (g_shm == MAP_FAILED)
   {
@@ -207,7 +215,8 @@ int main(int argc, char **argv)
     return 2;
   }
   memset(g_shm, 0, sizeof(Shm));
-  long n     = static_cast<long>(behs.size());
+  g_shm->natural_left = 2;
+  long n     = static_cast<long>(lines.size());
   long start = 0;
   long forks = 0, crashes = 0;
   while (start < n)
@@ -234,9 +243,16 @@ int main(int argc, char **argv)
       close(ep[0]);
       dup2(ep[1], 2);
       close(ep[1]);
+      std::ifstream in(argv[2], std::ios::binary);
+      std::string line;
       for (long j = start; j < n; ++j)
       {
-        const json &b = behs[j];
+        g_shm->cur  = j;
+        g_shm->step = -1;
+        in.seekg(lines[static_cast<size_t>(j)].first);
+        line.resize(static_cast<size_t>(lines[static_cast<size_t>(j)].second));
+        in.read(&line[0], static_cast<std::streamsize>(line.size()));
+        const json b  = json::parse(line);
         std::string m = b.value("m", "");
         auto it       = registry().find(m);
         Case c{&b, m, b.value("id", -1L), 0, 0};
@@ -280,6 +296,7 @@ int main(int argc, char **argv)
     close(ep[0]);
     int st = 0;
     waitpid(pid, &st, 0);
+    bool early = WIFEXITED(st) && WEXITSTATUS(st) == 43;
     if (WIFEXITED(st) && (WEXITSTATUS(st) == 0 || WEXITSTATUS(st) == 42))
     {
       if (!err.empty())
@@ -296,7 +313,7 @@ int main(int argc, char **argv)
     ++crashes;
     long cur        = g_shm->cur;
     long step       = g_shm->step;
-    const json &b   = behs[cur];
+    const json b    = load(cur);
     std::string m   = b.value("m", "");
     std::string sum = "";
     {
@@ -323,7 +340,15 @@ int main(int argc, char **argv)
               {"step", step}, {"died", died},            {"asan", sum},
               {"status", WIFSIGNALED(st) ? -WTERMSIG(st) : WEXITSTATUS(st)}};
     bool classified = false;
-    if (g_shm->phase != 0 || step < 0 || !b.contains("steps") || step >= static_cast<long>(b["steps"].size()))
+    if (g_shm->phase == 0 && step >= 0 && b.contains("steps") && step >= static_cast<long>(b["steps"].size()))
+    {
+      j["r"]     = "crash";
+      j["op"]    = "teardown";
+      j["what"]  = "the code under test crashed when the remaining variables left scope: " + sum;
+      j["stderr"] = err.substr(0, 3000);
+      classified = true;
+    }
+    else if (g_shm->phase != 0 || step < 0 || !b.contains("steps"))
     {
       j["r"]    = "harness";
       j["what"] = std::string("child died outside a step of the code under test (phase ") +
@@ -342,20 +367,33 @@ int main(int argc, char **argv)
           json ed = e.value("died", json::array());
           std::vector<int> v = ed.get<std::vector<int>>();
           std::sort(v.begin(), v.end());
-          if (json(v) == died)
+          bool subset = !died.empty();
+          for (auto &x : died)
+            subset = subset && std::find(v.begin(), v.end(), x.get<int>()) != v.end();
+          if (json(v) == died || (early && subset))
           {
-            // the destructor events recorded before the crash are exactly the deviation's
+            // the destructor events recorded before the process ended are exactly the deviation's
             j["r"]       = "dev";
             j["dev"]     = dev;
-            j["crashed"] = true;
-            j["what"]    = "objects " + died.dump() + " destroyed during " + sj.value("op", "") +
-                        " as in the deviation, then the process died: " + sum;
+            j["crashed"] = !early;
+            j["what"]    = "object(s) " + died.dump() + " destroyed during " + sj.value("op", "") +
+                        " although an owner remains (instance counter), as in the deviation" +
+                        (early ? std::string("") : "; then the process died: " + sum);
             classified = true;
             break;
           }
         }
       }
-      if (!classified)
+      if (!classified && early)
+      {
+        j["r"]    = "mismatch";
+        j["path"] = "/died";
+        j["exp"]  = sj["exp"].value("died", json::array());
+        j["obs"]  = died;
+        j["what"] = "nostd: object(s) " + died.dump() + " destroyed during " + sj.value("op", "") +
+                    " although the specification keeps them alive (instance counter)";
+      }
+      else if (!classified)
       {
         j["r"]    = "crash";
         j["what"] = "the code under test crashed in " + sj.value("op", "") + ": " + sum;
